@@ -42,12 +42,13 @@ def run_l1(n: int, seed: int) -> list[dict]:
         nc = bool(i % 2)
         api = gen_api.gen_api(random.Random(seed * 100003 + i // 2), i // 2)
         enc = apienc.api_sx(api)
+        module_names = [m.name for m in api.modules.values()] + [q.alias for m in api.modules.values() for q in m.qualified_imports if q.alias]
         line = vlib.sx(["back", nc, enc, []])
         out = base / f"o{i}"
         out.mkdir(parents=True)
         impl = impl_generate(api, nc, out)
         shutil.rmtree(out, ignore_errors=True)
-        items.append({"idx": i, "nc": nc, "api_seed": seed * 100003 + i // 2, "impl": impl, "api_dict": None})
+        items.append({"idx": i, "nc": nc, "api_seed": seed * 100003 + i // 2, "impl": impl, "module_names": module_names})
         lines.append(line)
     models = vlib.run_model(lines)
     for it, m in zip(items, models, strict=True):
